@@ -66,9 +66,20 @@ TraceStartFileExtra ==
         CloseGuard(cs, ev.name.len) /\ StartFileExtra(ev.name, o, cs)
    /\ ResIs /\ PosOk
    /\ Check(ev.r = "ok" => ev.ret = Last(w').dstart)
+\* the compressed size of the entry this call closes is inferred from where the sink stands afterwards.  When the
+\* call fails after the padding record went out (unsupported method / bad level found at the end of the extra
+\* phase) no padding is returned, so the candidates are all sizes c with  header(c) + padding(header(c)) = position
+PadTot(ds, a) == IF a > 1 /\ ds % a # 0 THEN 4 + PadLen(ds, a) ELSE 0
+AlignedCs(o) ==
+   LET direct == CsFrom(ev.pos - ev.ret - HdrLen(ev.name, o.large))
+       hl == HdrLen(ev.name, o.large)
+       alt == {c \in {ev.pos - hl - DStartAtClose(w) - p : p \in 4..(3 + Max(ev.align, 1))} :
+                  c >= 0 /\ CsOk(w, c) /\ LET ds == DStartAtClose(w) + c + hl IN ds + PadTot(ds, ev.align) = ev.pos}
+   IN IF ev.r = "ok" \/ ~NeedsCs(w) \/ ~CloseWorks(w) \/ CsOk(w, direct) \/ alt = {} THEN direct
+      ELSE CHOOSE c \in alt : \A d \in alt : c <= d
 TraceStartFileAligned ==
    /\ IsEvent("StartFileAligned")
-   /\ LET o == OptsOf(ev.o) cs == CsFrom(ev.pos - ev.ret - HdrLen(ev.name, o.large)) IN
+   /\ LET o == OptsOf(ev.o) cs == AlignedCs(o) IN
         /\ CloseGuard(cs, ev.name.len) /\ ~w.dead
         /\ LET r == AlignedF(w, ev.name, o, ev.align, cs, ev.padh) IN
              /\ w' = [r.w EXCEPT !.al = IF r.ok THEN ev.align ELSE 0]
